@@ -2,13 +2,13 @@
 import itertools
 
 from mc.harness import harness, oracle
-from mc.kit import E, E2, KE, ManualExecutor, Script, snapshot, brief
+from mc.kit import E, E2, KE, FalsyE, ManualExecutor, Script, snapshot, brief
 from mc.sched import EPS
 from more_executors import Executors
 from more_executors._impl.retry import RetryExecutor, ExceptionRetryPolicy, RetryPolicy
 
 TOL = 8 * EPS
-OUT = {"ok": ("ret", "ok"), "E": ("raise", E), "X": ("raise", E2), "K": ("raise", KE)}
+OUT = {"ok": ("ret", "ok"), "E": ("raise", E), "X": ("raise", E2), "K": ("raise", KE), "F": ("raise", FalsyE)}
 
 
 class LogPolicy(ExceptionRetryPolicy):
@@ -87,6 +87,12 @@ def _sweep_params():
         for eb in ("E", "KE", "E+KE"):
             out.append(dict(scripts=(sc,), max_attempts=3, sleep=1.0, exponent=2.0, max_sleep=120.0, base="manual",
                             ebase=eb, policy="log"))
+    # an exception inside exception_base whose instances are falsy is retried like any other
+    for sc in (("F", "ok"), ("F", "F", "ok"), ("E", "F", "ok"), ("F", "F", "F")):
+        for eb in ("E", "E+KE"):
+            for mode in ("inline", "manual"):
+                out.append(dict(scripts=(sc,), max_attempts=3, sleep=1.0, exponent=2.0, max_sleep=120.0, base=mode,
+                                ebase=eb, policy="log"))
     return out
 
 
@@ -189,7 +195,7 @@ def body(mc, p):
 def ref_attempts(p, sc):
     """(number of invocations, final outcome index) by the sequential reference."""
     pk = p["policy"]
-    ebase = {"E": ("E",), "KE": ("K",), "E+KE": ("E", "K")}[p["ebase"]]
+    ebase = {"E": ("E", "F"), "KE": ("K",), "E+KE": ("E", "F", "K")}[p["ebase"]]
     n = 0
     while True:
         o = sc[min(n, len(sc) - 1)]
@@ -201,7 +207,7 @@ def ref_attempts(p, sc):
         else:
             kind, k = pk.split("@")
             k = int(k)
-            retry = (o in ("E", "X", "K")) and n < 3
+            retry = (o in ("E", "X", "K", "F")) and n < 3
             if kind == "should_raises" and n == k:
                 retry = False
             if kind == "sleep_raises" and n == k and retry:
